@@ -81,6 +81,10 @@ func parseCIDRorMask(s string, sepIdx int) *IPRange {
 
 	maskAsIP := net.ParseIP(s[sepIdx+1:])
 	prefixLen, prefixLenErr := strconv.Atoi(s[sepIdx+1:])
+	if c := s[sepIdx+1]; c == '+' || c == '-' {
+		// prefix length is a plain number, "/+8" or "/-0" are not CIDR notation
+		prefixLenErr = strconv.ErrSyntax
+	}
 
 	addrLen := len(addr)
 	if addr.To4() != nil {
